@@ -525,7 +525,12 @@ package graphql
 //@   ensures err == nil ==> calls(errorPresenter) == 0 && calls(getResponseContext) == 0
 //@   ensures err != nil ==> calls(errorPresenter) == 1 && calls(ErrorOnPath) == 1 && calls(Lock) == 1 && calls(Unlock) == 1
 //@   at `c.errorPresenter(ctx, ErrorOnPath(ctx, err))` requires true
-//@ trusted ErrorOnPath(ctx, err) (e)
+// ErrorOnPath: nil stays nil, anything else comes back non-nil; the only thing it may write is the Path of a
+// graphql error that had none.
+//@ func ErrorOnPath [C01]
+//@   ensures err == nil ==> res0 == nil
+//@   ensures err != nil ==> res0 != nil
+//@   at `assign gqlErr.Path` requires gqlErr.Path == nil
 //@   modifies Error.Path
 //@ func DefaultErrorPresenter [C01]
 //@   ensures err == nil ==> res0 == nil
@@ -611,3 +616,13 @@ package graphql
 //@   pure
 //@ func DefaultRecover [C06,C04]
 //@   ensures res0 != nil && local(res0)
+
+// FieldSet representation invariant len(fields) == len(Values): established by NewFieldSet, preserved by AddField
+// (MarshalGQL relies on it to index Values by the field position).
+//@ func NewFieldSet [C01]
+//@   ensures res0 != nil && len(res0.fields) == len(res0.Values) && len(res0.Values) == len(fields) && res0.Invalids == 0
+//@   modifies nothing
+//@ func (*FieldSet).AddField [C01]
+//@   requires m != nil && len(m.fields) == len(m.Values)
+//@   ensures len(m.fields) == len(m.Values) && len(m.Values) == old(len(m.Values)) + 1
+//@   modifies FieldSet.fields FieldSet.Values elems
